@@ -139,7 +139,7 @@ def run_faces(ctx, desc):
     if mixed and not float(fv).is_integer():
         fv = 4.0  # integer-typed data only with integer-valued fills (numpy casts the fill to the array's dtype; not stated)
     t_listed = linktable.listed_in_order(t, desc["dseed"]) if desc["dseed"] % 2 else t
-    g = Grid(ds, coords=cm, face_connections={"face": t_listed}, periodic=False, boundary=dict(rule, **({"Z": "extend"} if with_z else {})),
+    g = Grid(ds, coords=cm, face_connections={"face": linktable.spelled(t_listed, desc["dseed"] // 2)}, periodic=False, boundary=dict(rule, **({"Z": "extend"} if with_z else {})),
              fill_value=fv, autoparse_metadata=False)
 
     def comp_arrays(scale):
